@@ -259,12 +259,44 @@ int k_close(int fd) {
     { Ev &e = sim_event("close", it == G.fds.end() ? "" : it->second.path); e.a = it == G.fds.end() ? -1 : it->second.id; }
     size_t ei = G.hist.size() - 1;
     if (it == G.fds.end()) { G.hist[ei].ret = -1; G.hist[ei].err = EBADF; return -EBADF; }
+    {   // the last descriptor of an open file description drops its advisory lock
+        auto fl = G.flocks.find(it->second.path);
+        if (fl != G.flocks.end() && fl->second.erase(it->second.id)) sched_wake_all(&fl->second);
+    }
     G.fds.erase(it);
     if (faulted && f.err) { G.hist[ei].ret = -1; G.hist[ei].err = f.err; G.hist[ei].mark |= MARK_FAULT; return -f.err; }
     return 0;
 }
 
+// flock(2): the lock belongs to the open file description, so a descriptor inherited over fork() keeps it alive in the child
+int k_flock(int fd, int op) {
+    sched_point(SP_IO); sim_step();
+    auto it = G.fds.find(fd);
+    Fault f; bool faulted = sim_fault("flock", f);
+    { Ev &e = sim_event("flock", it == G.fds.end() ? "" : it->second.path); e.a = it == G.fds.end() ? -1 : it->second.id; e.c = op; }
+    size_t ei = G.hist.size() - 1;
+    if (it == G.fds.end()) { G.hist[ei].ret = -1; G.hist[ei].err = EBADF; return -EBADF; }
+    if (faulted && f.err) { G.hist[ei].ret = -1; G.hist[ei].err = f.err; G.hist[ei].mark |= MARK_FAULT; return -f.err; }
+    if (it->second.kind != 0) return 0;
+    const std::string path = it->second.path; const int me = it->second.id;
+    std::map<int, int> &locks = G.flocks[path];
+    if (op & 8) { if (locks.erase(me)) sched_wake_all(&locks); return 0; }
+    const int want = (op & 2) ? 2 : 1;
+    if (!(op & 4)) { G.hist[ei].mark |= MARK_BLOCKS; G.counters["would-block"]++; }   // may wait for another process for as long as that one likes
+    for (;;) {
+        bool conflict = false; int holder = -1;
+        for (auto &l : locks) if (l.first != me && (want == 2 || l.second == 2)) { conflict = true; holder = l.first; }
+        if (!conflict) break;
+        if (op & 4) { G.hist[ei].ret = -1; G.hist[ei].err = EWOULDBLOCK; return -EWOULDBLOCK; }
+        int holder_fd = -1; for (auto &d : G.fds) if (d.second.id == holder) holder_fd = d.first;
+        sched_block_on(&locks, "flock on " + path + " waits for the lock held through descriptor " + std::to_string(holder_fd) + " (open file description " + std::to_string(holder) + ")");
+    }
+    locks[me] = want;
+    return 0;
+}
+
 // ---- stdio on top of the simulated kernel: glibc's real stdio runs on cookie streams
+static std::map<FILE *, int> g_stream_fd;      // fileno() of the simulated streams
 static ssize_t ck_read(void *c, char *buf, size_t n) {
     SimScope s; long r = k_read((int)(intptr_t)c, buf, n);
     if (r < 0) { errno = (int)-r; return -1; }
@@ -289,16 +321,20 @@ static int ck_seek(void *c, off64_t *off, int whence) {
 }
 static int ck_close(void *c) {
     SimScope s; int fd = (int)(intptr_t)c;
+    for (auto it = g_stream_fd.begin(); it != g_stream_fd.end();) { if (it->second == fd) it = g_stream_fd.erase(it); else ++it; }
     int r = k_close(fd);
     auto it = g_stdio_bufs.find(fd);
     if (it != g_stdio_bufs.end()) { free(it->second); g_stdio_bufs.erase(it); }
     if (r < 0) { errno = -r; return -1; }
     return 0;
 }
+int k_fileno(FILE *f) { auto it = g_stream_fd.find(f); return it == g_stream_fd.end() ? -1 : it->second; }
 static FILE *cookie_stream(int fd, const char *mode, int bufmode, size_t bufsize) {
     cookie_io_functions_t fn = {ck_read, ck_write, ck_seek, ck_close};
     FILE *f = fopencookie((void *)(intptr_t)fd, mode, fn);
     if (!f) return nullptr;
+    for (auto it = g_stream_fd.begin(); it != g_stream_fd.end();) { if (it->second == fd) it = g_stream_fd.erase(it); else ++it; }
+    g_stream_fd[f] = fd;
     if (bufmode == _IONBF) setvbuf(f, nullptr, _IONBF, 0);
     else { void *b = malloc(bufsize); g_stdio_bufs[fd] = b; setvbuf(f, (char *)b, bufmode, bufsize); }
     return f;
